@@ -346,6 +346,27 @@ class World:
     def static_value(self, st, path):
         return Opq("static", (path,))
 
+    def static_array(self, m, st, path):
+        """Elements of a workspace static array whose initialiser is straight-line (constants, fn items)."""
+        cache = self.__dict__.setdefault("_static_arrays", {})
+        if path in cache:
+            return cache[path]
+        b = self.prog.body(path)
+        val = None
+        if b is not None and not b.ext and len(b.blocks) <= 4 and sum(len(bl["stmts"]) for bl in b.blocks) <= 400:
+            sub = State()
+            sub.nuid = 50_000
+            fr = Frame(b, sub.fresh())
+            sub.frames.append(fr)
+            try:
+                outs = m.run(sub, keep_frames=True)
+                if len(outs) == 1 and outs[0].kind == "return" and isinstance(outs[0].value, Opq) and outs[0].value.kind == "array":
+                    val = outs[0].value
+            except AnalysisError:
+                val = None
+        cache[path] = val
+        return val
+
     def unevaluated_const(self, st, c):
         self._no("unevaluated constant %s" % c.get("repr"))
 
@@ -417,6 +438,18 @@ class Machine:
     def is_std_body(self, body):
         return body is not None and (body.crate not in ("precis_core", "precis_profiles", "precis_tools", "pv_positive") and not body.crate.startswith("build_script")) or (body is not None and not body.id.startswith(("precis_", "<precis_", "pv_positive", "<pv_positive")) and body.d.get("span", {}).get("file", "").startswith("/") and "/library/" in body.d["span"]["file"])
 
+    def default_method_body(self, callee):
+        """The provided (default) body of a trait method, exported from std: used when the call is not
+        resolved (generic receiver) or when the resolved override is not plain MIR — overrides of provided
+        iterator/option methods are behaviourally equivalent to the default by the trait's contract."""
+        tr = callee.get("trait")
+        if not tr:
+            return None
+        b = self.prog.bodies.get("%s::%s" % (tr, callee["name"]))
+        if b is not None and b.ext:
+            return b
+        return None
+
     def ext_simple(self, key, depth=0, stack=()):
         """May an exported std body be interpreted instead of modelled? Only plain MIR: no raw pointers,
         transmutes, intrinsics or inline asm, and every callee is modelled, dispatched on a trait the
@@ -458,6 +491,9 @@ class Machine:
                 if p in self.models or _models.pattern_model(c["full"]) or _models.pattern_model(p):
                     continue
                 if (not c["resolved"] or c.get("virtual")) and c["name"] in self.DISPATCH:
+                    continue
+                dflt = self.default_method_body(c)
+                if dflt is not None and dflt.key != key and self.ext_simple(dflt.key, depth + 1, stack + (key,)):
                     continue
                 if p.startswith("core::intrinsics::") or p.startswith("core::ub_checks") or "precondition_check" in p:
                     ok = False
@@ -540,12 +576,20 @@ class Machine:
             if isinstance(step, tuple) and step[0] == "idx":
                 v = self.world_index(st, v, step[1])
                 continue
+            if isinstance(step, tuple) and step[0] == "opq":
+                if not (isinstance(v, Opq) and isinstance(v.data, tuple)):
+                    raise AnalysisError("component %r of %r" % (step, v))
+                v = v.data[step[1]]
+                continue
             if isinstance(v, Sym):
                 v = self.concretize(st, v)
             if isinstance(v, Str) and step == 0:
                 continue  # payload of Cow::Borrowed / Cow::Owned: the same content
             if isinstance(v, (Adt, Tup)):
                 if step >= len(v.fields):
+                    if isinstance(v, Adt) and not v.fields and step == 0:
+                        v = UNIT  # zero-sized payload of a constant enum value
+                        continue
                     raise AnalysisError("field %r of %r" % (step, v))
                 v = v.fields[step]
             elif isinstance(v, Clo):
@@ -587,6 +631,12 @@ class Machine:
         step = path[0]
         if isinstance(step, tuple) and step[0] == "as":
             return self._update(st, v, path[1:], new)
+        if isinstance(step, tuple) and step[0] == "opq":
+            if not (isinstance(v, Opq) and isinstance(v.data, tuple)):
+                raise AnalysisError("component update %r of %r" % (step, v))
+            d = list(v.data)
+            d[step[1]] = self._update(st, d[step[1]], path[1:], new)
+            return Opq(v.kind, tuple(d))
         if isinstance(v, Sym):
             v = self.concretize(st, v)
         if isinstance(v, Adt):
@@ -726,6 +776,8 @@ class Machine:
             if agg == "tuple":
                 return Tup(ops)
             if agg == "adt":
+                if rv["adt"] == "alloc::borrow::Cow" and len(ops) == 1:
+                    return ops[0]  # Cow::Borrowed(x) / Cow::Owned(x): the content is what matters
                 return Adt(rv["adt"], rv["variant"], ops)
             if agg == "closure":
                 return Clo(rv["def"], ops)
@@ -734,6 +786,10 @@ class Machine:
             raise AnalysisError("aggregate %s" % agg)
         if k == "discriminant":
             v = self.read_place(st, fr, rv["place"])
+            if isinstance(v, Opq) and v.kind == "from_output":
+                from . import models as _models
+
+                v = _models.coerce_try_output(v, rv.get("ty", ""))
             if isinstance(v, Sym):
                 v = self.concretize(st, v)
             if isinstance(v, Adt):
@@ -955,6 +1011,10 @@ class Machine:
                 return Outcome("return", ret, st, None)
             st.frames.pop()
             caller = st.frames[-1]
+            if isinstance(ret, Opq) and ret.kind == "from_output" and not fr.dest["p"]:
+                from . import models as _models
+
+                ret = _models.coerce_try_output(ret, caller.body.locals[fr.dest["l"]]["ty"])
             self.write_place(st, caller, fr.dest, ret)
             if fr.target is None:
                 raise AnalysisError("return into a diverging call site")
@@ -1073,6 +1133,10 @@ class Machine:
             body = self.prog.callee_body(callee)
             if body is not None and body.ext and not self.ext_simple(body.key):
                 body = None  # an exported std body that is not plain MIR: needs a model
+            if body is None:
+                d = self.default_method_body(callee)
+                if d is not None and self.ext_simple(d.key):
+                    body = d
             if body is not None:
                 return self.push_frame(st, fr, t, body, args)
             raise AnalysisError("unmodelled call to %s (%s) at %s:%d" % (callee["full"], "resolved" if callee["resolved"] else "unresolved", t["span"]["file"], t["span"]["line"]))
